@@ -3,9 +3,9 @@ package worlds
 import (
 	"os"
 
-	"github.com/go-logr/logr/funcr"
 	"crypto/md5"
 	"fmt"
+	"github.com/go-logr/logr/funcr"
 	"time"
 
 	"go.minekube.com/common/minecraft/component"
@@ -23,18 +23,19 @@ import (
 // classicWorld is W-classic: a real proxy.Proxy in classic mode with simulated clients,
 // backends and (optionally) a session server.
 type classicWorld struct {
-	r        *Run
-	s        *simrt.Sim
-	p        *proxy.Proxy
-	ev       *simEvent
-	cfg      *config.Config
-	backends map[string]*backendModel
-	border   []string
-	clients  []*clientModel
-	seq      int
-	seg      simnet.SegMode
-	connN    int
-	dialLog  []dialRec
+	r            *Run
+	s            *simrt.Sim
+	p            *proxy.Proxy
+	ev           *simEvent
+	cfg          *config.Config
+	backends     map[string]*backendModel
+	border       []string
+	clients      []*clientModel
+	seq          int
+	seg          simnet.SegMode
+	clientWindow int // bytes in flight on client links (0 = simnet default); set before addClient
+	connN        int
+	dialLog      []dialRec
 }
 
 type dialRec struct {
